@@ -5,6 +5,7 @@ REDIR = {
     "(github.com/libp2p/go-libp2p/core/peer.ID).String": "lIDString",
     "(*github.com/ipld/go-ipld-prime/linking.LinkSystem).Load": "lLoad",
     "github.com/sourcenetwork/defradb/internal/core/block.GetFromNode": "lGetFromNode",
+    "github.com/ipfs/go-block-format.NewBlock": "lNewBlock",
 }
 
 OVR = {"github.com/sourcenetwork/defradb/client.CborNil": "bytes:f6",
@@ -21,6 +22,13 @@ PATCHES = [
     {"file": "net/p2p_replicator.go",
      "anchor": "\t\t\tgo p.retryReplicator(ctx, key.PeerID)\n",
      "replace": "\t\t\tverifSpawn(func() { p.retryReplicator(ctx, key.PeerID) })\n"},
+    # the per-replicator push goroutines of pushLogToReplicators run when the harness says so
+    {"file": "net/peer.go",
+     "anchor": "\t\t\tgo func(peerID peer.ID) {\n\t\t\t\tif err := p.server.pushLog(lg, peerID); err != nil {",
+     "replace": "\t\t\tverifSpawnPeer(pid, func(peerID peer.ID) {\n\t\t\t\tif err := p.server.pushLog(lg, peerID); err != nil {"},
+    {"file": "net/peer.go",
+     "anchor": "\t\t\t\t\t\tcorelog.Any(\"PeerID\", peerID))\n\t\t\t\t}\n\t\t\t}(pid)\n",
+     "replace": "\t\t\t\t\t\tcorelog.Any(\"PeerID\", peerID))\n\t\t\t\t}\n\t\t\t})\n"},
 ]
 
 
@@ -30,6 +38,10 @@ def jobs(tier):
     for nested, nn in ((0, "none"), (1, "other-doc"), (2, "same-doc")):
         js.append({"id": f"O1.ledger.events{n}.nested-{nn}", "func": "VerifH_C15_Ledger",
                    "conf": {"events": n, "nested": nested, "rounds": 2}, "_obligation": "O1", "_covers": ["quiescent"], "unwind": 24})
+    calls = 2 if tier == "quick" else 3
+    for restart in (0, 1):
+        js.append({"id": f"O2.routing.calls{calls}.restart{restart}", "func": "VerifH_C15_Routing", "conf": {"calls": calls, "restart": restart, "nested": 0},
+                   "_obligation": "O2", "_covers": ["configured"], "map_order": True, "unwind": 24})
     js.append({"id": "twin", "func": "VerifH_C15_Reach", "conf": {"nested": 0}, "_obligation": "vacuity", "_expect": "twin", "_covers": ["end"]})
     return js
 
@@ -39,13 +51,15 @@ PROPERTY = {
     "suites": [{"name": "ledger", "pkg": "net", "files": ["zz_verif_c15.go"], "common": ["intrinsics", "kvmodel", "kvtxn"],
                 "jobs": jobs, "redirects": REDIR, "overrides": OVR, "patches": PATCHES}],
     "bounds": {"documents": 2, "replicators": 1, "history": "3 events (quick) / 4 (thorough), each a commit (document, schema version, push outcome: inputs) or a retry round (outcome of every retried push: input)",
-               "commits during a retried push": "at most one per history", "retry rounds after traffic stops": 2},
+               "commits during a retried push": "at most one per history", "retry rounds after traffic stops": 2,
+               "routing (O2)": "2 replicators, 2 collections, 2 (thorough 3) configuration calls with any collection subset and status, with / without a restart of the sender; map iteration orders as rotations"},
     "assumptions": ["the network push is a callback whose outcome is an input (source patch of pushLog regenerated from the current tree); concurrent commits are injected only while a retried push is on the wire",
                     "the retry goroutine runs to completion right after retryReplicators returns (one schedule)",
                     "a retry is always due (fixed negative back-off intervals; time.Now is the zero time inside the solver run)",
                     "the database is the transactional store model kvtxn (snapshot reads, read-write conflict detection at commit)",
                     "json / cbor encoding of the replicator and retry records is a box (identity on round trip)",
-                    "receiver: a successful push of commit v of a document delivers all its commits up to v"],
+                    "receiver: a successful push of commit v of a document delivers all its commits up to v",
+                    "O2: libp2p host / peerstore / bitswap exchange are no-op fakes; the per-replicator push goroutines of pushLogToReplicators run after it returns (source patch)"],
     "outside_claim": ["liveness proper (timers, the retry loop goroutine, back-off schedule), libp2p / gRPC / pubsub, thread interleavings other than a commit arriving during a retried push",
                       "SetReplicator / DeleteReplicator, restart of the sending node, store faults", "the receiving node (DAG sync, merge: C02, C19)"],
 }
